@@ -35,6 +35,7 @@ pub fn title_sets(tier: Tier, f1: (u32, u32), f2: (u32, u32), f4: (u32, u32)) ->
         let mixed = vec![f5[0], f5[2], f5[3], s.c, s.c2.to_uppercase().next().unwrap_or(s.c2), ' '];
         sets.push(TitleSet { name: format!("F5caps<={}", b), l, titles: Titles::Chars { fam: mixed, lo: 0, hi: b }, nctx: 1, block: 500 });
         sets.push(TitleSet { name: format!("F7-numerics<={}", b), l, titles: Titles::Chars { fam: fam7(l), lo: 0, hi: b }, nctx: 1, block: 500 });
+        sets.push(TitleSet { name: format!("F8-latin1<={}", b.min(5)), l, titles: Titles::Chars { fam: fam8(l), lo: 0, hi: b.min(5) }, nctx: 1, block: 500 });
     }
     sets
 }
